@@ -34,7 +34,7 @@ fn kv<'a>(t: &[&'a str], key: &str) -> Option<&'a str> {
 }
 
 pub fn install_quiet_panic_hook() {
-    std::panic::set_hook(Box::new(|_| {}));
+    if std::env::var("VERIF_LOUD").is_err() { std::panic::set_hook(Box::new(|_| {})); }
 }
 
 impl Interp {
@@ -151,7 +151,8 @@ impl Interp {
             }
             ["e2e.start", name, ..] => {
                 let (Some(proto), Some(cipher), Some(spw), Some(cpw), Some(users), Some(mode)) = (kv(t, "protocol"), kv(t, "cipher"), kv(t, "spw"), kv(t, "cpw"), kv(t, "users"), kv(t, "mode")) else { return "bad-op".into() };
-                match crate::e2e::World::start(proto, cipher, spw, cpw, &crate::stream::parse_users(users), mode, kv(t, "ws") == Some("1")) {
+                let threads = kv(t, "threads").and_then(|x| x.parse().ok()).unwrap_or(4);
+                match crate::e2e::World::start(proto, cipher, spw, cpw, &crate::stream::parse_users(users), mode, kv(t, "ws") == Some("1"), kv(t, "link") == Some("1"), threads, kv(t, "tls")) {
                     Ok(w) => {
                         self.objs.insert(name.to_string(), Obj::World(w));
                         "ok".into()
@@ -161,10 +162,20 @@ impl Interp {
             }
             ["e2e.tcp", name, ..] => {
                 let Some(Obj::World(w)) = self.objs.get(*name) else { return "bad-op".into() };
-                let (Some(kind), Some(host), Some(up), Some(down), Some(seed)) = (kv(t, "kind"), kv(t, "host"), kv(t, "up"), kv(t, "down"), kv(t, "seed").and_then(|x| x.parse::<u64>().ok())) else { return "bad-op".into() };
-                let up = crate::e2e::payload(seed, &crate::e2e::parse_sizes(up));
-                let down = crate::e2e::payload(seed ^ 0xabcd, &crate::e2e::parse_sizes(down)).concat();
-                w.tcp_flow(kind, host, &up, &down, kv(t, "close") == Some("target"))
+                let Some(sc) = tcp_script(t, 0) else { return "bad-op".into() };
+                w.tcp_flow(sc)
+            }
+            ["e2e.par", name, ..] => {
+                let Some(Obj::World(w)) = self.objs.get(*name) else { return "bad-op".into() };
+                let (Some(n), Some(m), Some(seed)) = (kv(t, "n").and_then(|x| x.parse::<u64>().ok()), kv(t, "m").and_then(|x| x.parse::<u64>().ok()), kv(t, "seed").and_then(|x| x.parse::<u64>().ok())) else { return "bad-op".into() };
+                let mut scripts = vec![];
+                for i in 0..n {
+                    let Some(sc) = tcp_script(t, i + 1) else { return "bad-op".into() };
+                    scripts.push(sc);
+                }
+                let sizes = crate::e2e::parse_sizes(kv(t, "sizes").unwrap_or("16"));
+                let udp = (0..m).map(|i| crate::e2e::payload(seed ^ (0x5500 + i), &sizes)).collect();
+                w.par(scripts, udp)
             }
             ["e2e.udp", name, ..] => {
                 let Some(Obj::World(w)) = self.objs.get(*name) else { return "bad-op".into() };
@@ -174,6 +185,22 @@ impl Interp {
             ["e2e.fault", name, kind, junk] => {
                 let (Some(Obj::World(w)), Some(j)) = (self.objs.get(*name), unhex(junk)) else { return "bad-op".into() };
                 w.fault(kind, &j)
+            }
+            ["e2e.cut", name] => {
+                let Some(Obj::World(w)) = self.objs.get(*name) else { return "bad-op".into() };
+                w.cut()
+            }
+            ["e2e.server", name, what] => {
+                let Some(Obj::World(w)) = self.objs.get_mut(*name) else { return "bad-op".into() };
+                w.server(what)
+            }
+            ["e2e.fdbase", name] => {
+                let Some(Obj::World(w)) = self.objs.get(*name) else { return "bad-op".into() };
+                w.fd_base()
+            }
+            ["e2e.fdcheck", name] => {
+                let Some(Obj::World(w)) = self.objs.get(*name) else { return "bad-op".into() };
+                w.fd_check()
             }
             ["e2e.alive", name] => {
                 let Some(Obj::World(w)) = self.objs.get(*name) else { return "bad-op".into() };
@@ -371,4 +398,20 @@ impl Interp {
             _ => "bad-op".into(),
         }
     }
+}
+
+/// `kind= host= up= down= seed= close=app|target [target=up|refused|unresolvable] [cut=K]`; `salt` varies the payload per parallel flow
+fn tcp_script(t: &[&str], salt: u64) -> Option<crate::e2e::TcpScript> {
+    let seed = kv(t, "seed")?.parse::<u64>().ok()?.wrapping_add(salt.wrapping_mul(0x9e37_79b9));
+    let up = crate::e2e::payload(seed, &crate::e2e::parse_sizes(kv(t, "up")?));
+    let down = crate::e2e::payload(seed ^ 0xabcd, &crate::e2e::parse_sizes(kv(t, "down")?)).concat();
+    Some(crate::e2e::TcpScript {
+        kind: kv(t, "kind")?.to_owned(),
+        host: kv(t, "host")?.to_owned(),
+        up,
+        down,
+        target_closes_first: kv(t, "close") == Some("target"),
+        target: kv(t, "target").unwrap_or("up").to_owned(),
+        cut_after: kv(t, "cut").and_then(|x| x.parse().ok()),
+    })
 }
